@@ -1,11 +1,12 @@
 (** probe location functions and comparison helpers for correspondence K8 *)
-From Coq Require Import QArith List Bool.
+From Coq Require Import QArith Qround List Bool.
 From IV Require Import QL Grid CorrBase.
 Import ListNotations.
 Open Scope Q_scope.
 
 Definition sentinel : Q := (-123456789 # 1).
-Definition fails_marker (o : list Q) : bool := match o with x :: _ => Qeq_bool x 999 | [] => false end.
+(* markers 992..999 select the exception class the Python probe raises (gridcommon.EXC): any of them is a failure *)
+Definition fails_marker (o : list Q) : bool := match o with x :: _ => Qle_bool 992 x && Qle_bool x 999 && Qeq_bool x (inject_Z (Qfloor x)) | [] => false end.
 (** LinearScaling-like probe: cm_future + (sum obs - sum cm_hist) *)
 Definition probe_ls : locfun Q := fun o h fu =>
   if fails_marker o then None else let d := Qred (QL.qsum o - QL.qsum h) in Some (map (fun x => Qred (x + d)) fu).
